@@ -71,9 +71,19 @@ def run(ctx):
     ctx.ob('C16.flags-with-bytes', 'IsoOut.write_data', wdat == want, None, 'payload/last/first packed into the FIFO word: %s' % wdat)
     outs = {'self.stream.valid': '~fifo.empty', 'self.stream.p.data': 'fifo.read_data[0:8]', 'self.stream.p.last': 'fifo.read_data[8:9]',
             'self.stream.p.first': 'fifo.read_data[9:10]', 'fifo.read_en': 'self.stream.ready', 'fifo.read_commit': '1'}
+    PW = {'self.stream.p.data': 8, 'self.stream.p.last': 1, 'self.stream.p.first': 1}     # Packet(unsigned(8)): data, last, first
     for lhs, rhs in outs.items():
         a = one(lhs)
-        ctx.ob('C16.output', 'IsoOut.' + lhs, a.rhs.canon() == rhs, a.loc, '%s <= %s, found %s' % (lhs, rhs, a.rhs.canon()))
+        got = a.rhs
+        if isinstance(a.lhs, E) and a.lhs.op == 'cat' and all(x.op == 'sig' and x.canon() in PW for x in a.lhs.args) and isinstance(a.rhs, E):
+            # the packet fields assigned through one Cat() on the left (their widths come from the stream layout)
+            from ..hdl import slice_of
+            off = 0
+            for x in a.lhs.args:
+                if x.canon() == lhs:
+                    got = slice_of(a.rhs, off, off + PW[x.canon()])
+                off += PW[x.canon()]
+        ctx.ob('C16.output', 'IsoOut.' + lhs, got.canon() == rhs, a.loc, '%s <= %s, found %s' % (lhs, rhs, got.canon()))
     for lhs, rhs in (('boundary_detector.complete_in', 'self.interface.rx_complete'), ('boundary_detector.invalid_in', 'self.interface.rx_invalid'),
                      ('boundary_detector.unprocessed_stream.payload', 'self.interface.rx.payload'),
                      ('boundary_detector.unprocessed_stream.next', 'self.interface.rx.next'),
